@@ -48,6 +48,8 @@ inductive Expr where
   | fmt (e : Expr)
   /-- `t if c else e` -/
   | ifE (c t e : Expr)
+  /-- `{key: value for target in iter}` (one `for`, no `if`; the target is a name) -/
+  | dictComp (key value : Expr) (target : String) (iter : Expr)
   /-- anything else (f-strings, lambdas, comprehensions …), kept as canonical source text -/
   | other (src : String)
   deriving Repr, Inhabited
@@ -64,6 +66,8 @@ inductive Stmt where
   | reraise
   | ifS (c : Expr) (thn els : List Stmt)
   | forS (target iter : Expr) (body : List Stmt)
+  /-- `while c: body` (no `else`) -/
+  | whileS (c : Expr) (body : List Stmt)
   /-- `try: body  except <Exception or bare>: handler` -/
   | tryS (body handler : List Stmt)
   /-- `try: body  except <Cls>: handler` (one handler naming one class) -/
@@ -128,6 +132,11 @@ structure World (m : Type → Type) (V : Type) where
   format : V → m V
   /-- the pieces of an f-string joined -/
   concat : List V → m V
+  /-- a `dict` built from (key, value) pairs, in insertion order -/
+  dict : List (V × V) → m V
+  /-- `while`: given how to evaluate the condition and one pass of the body (a world that runs loops uses
+  `whileFuel` with the fuel it was given; the others refuse) -/
+  whileLoop : (Locals V → m Bool) → (Locals V → m (Ctl V × Locals V)) → Locals V → m (Ctl V × Locals V)
   other : String → m V
   throw : {α : Type} → String → m α
   rethrow : {α : Type} → m α
@@ -136,6 +145,14 @@ structure World (m : Type → Type) (V : Type) where
   catchCls : {α : Type} → String → m α → m α → m α
 
 variable {m : Type → Type} [Monad m] {V : Type}
+
+/-- the pairs of a comprehension: `f` evaluates key and value for one element -/
+def compPairs (f : V → m (V × V)) : List V → m (List (V × V))
+  | [] => pure []
+  | v :: vs => do
+    let p ← f v
+    let ps ← compPairs f vs
+    pure (p :: ps)
 
 mutual
 def evalExpr (w : World m V) (loc : Locals V) : Expr → m V
@@ -174,6 +191,14 @@ def evalExpr (w : World m V) (loc : Locals V) : Expr → m V
   | .ifE c t e => do
     let cv ← evalExpr w loc c
     if (← w.truthy cv) then evalExpr w loc t else evalExpr w loc e
+  | .dictComp k v t it => do
+    let iv ← evalExpr w loc it
+    let xs ← w.iter iv
+    let ps ← compPairs (fun x => do
+      let kv ← evalExpr w (loc.set t x) k
+      let vv ← evalExpr w (loc.set t x) v
+      pure (kv, vv)) xs
+    w.dict ps
   | .other s => w.other s
 
 /-- positional arguments, left to right; `*e` is expanded in place -/
@@ -213,6 +238,21 @@ def forLoop (body : Locals V → V → m (Ctl V × Locals V)) : List V → Local
     | .brk => pure (.next, loc')
     | .ret r => pure (.ret r, loc')
 
+/-- `while cond: body` with at most `fuel` passes (running out of fuel ends the loop like a false condition - the
+convention of the models' own fuelled loops): the condition is evaluated before every pass; `continue` and a body that
+falls through go on, `break` ends the loop, `return` leaves the function -/
+def whileFuel (cond : Locals V → m Bool) (body : Locals V → m (Ctl V × Locals V)) : Nat → Locals V → m (Ctl V × Locals V)
+  | 0, loc => pure (.next, loc)
+  | fuel + 1, loc => do
+    if (← cond loc) then do
+      let (c, loc') ← body loc
+      match c with
+      | .next => whileFuel cond body fuel loc'
+      | .cont => whileFuel cond body fuel loc'
+      | .brk => pure (.next, loc')
+      | .ret r => pure (.ret r, loc')
+    else pure (.next, loc)
+
 /-- `a, b = v` for names only: positional binding of the unpacked values (a length mismatch is Python's
 `ValueError`) -/
 def bindNames (w : World m V) : List Expr → List V → Locals V → m (Locals V)
@@ -249,6 +289,8 @@ def evalStmt (w : World m V) (loc : Locals V) : Stmt → m (Ctl V × Locals V)
     let iv ← evalExpr w loc it
     let vs ← w.iter iv
     forLoop (fun l v => do let l' ← assignTo w l t v; evalBlock w l' body) vs loc
+  | .whileS c body =>
+    w.whileLoop (fun l => do let cv ← evalExpr w l c; w.truthy cv) (fun l => evalBlock w l body) loc
   | .tryS body handler => w.catchAll (evalBlock w loc body) (evalBlock w loc handler)
   | .tryC body cls handler => w.catchCls cls (evalBlock w loc body) (evalBlock w loc handler)
   | .assertS c => do
